@@ -211,7 +211,7 @@ def run():
         chk.cov["call_space"] = len(space)
         rng = random.Random(chk.seed)
         sessions = []
-        nsess = 12 if chk.thorough else 4
+        nsess = 32 if chk.thorough else 4
         for i in range(nsess):
             order = list(calls)
             rng.shuffle(order)
